@@ -1,6 +1,7 @@
 import PvProofs.C19
 import PvProofs.C19Gen
 import PvProofs.C19Dist
+import PvProofs.C19Csf
 #print axioms PvProofs.C19.quoIntRoundUp_away_from_zero
 #print axioms PvProofs.C19.quoIntRoundUp_is_ceil
 #print axioms PvProofs.C19.applyLoosely_is_ceil
@@ -40,3 +41,5 @@ import PvProofs.C19Dist
 #print axioms PvProofs.C19Dist.distribution_adds_up
 #print axioms PvProofs.C19Dist.increaseAll_never_fails
 #print axioms PvProofs.C19Gen.bitLen_gt_iff
+#print axioms PvProofs.C19Csf.commitmentFee_okB
+#print axioms PvProofs.C19Csf.commitmentFee_succeeds_iff
